@@ -19,6 +19,7 @@ pub mod c16;
 pub mod c17;
 pub mod c18;
 pub mod c19;
+pub mod c20;
 
 pub fn dispatch(id: &str, tier: Tier, seed: u64, extra: &[String]) -> i32 {
     let _ = extra;
@@ -44,6 +45,8 @@ pub fn dispatch(id: &str, tier: Tier, seed: u64, extra: &[String]) -> i32 {
         "C17" => c17::run(&Ctx::new("C17", tier, seed)),
         "C18" => c18::run(&Ctx::new("C18", tier, seed)),
         "C19" => c19::run(&Ctx::new("C19", tier, seed)),
+        "C20" => c20::run(&Ctx::new("C20", tier, seed)),
+        "C20-native" => c20::native_child(seed, tier),
         _ => {
             eprintln!("unknown check {}", id);
             2
